@@ -140,6 +140,26 @@ impl Dyn {
             other => other.clone(),
         }
     }
+    /// does some struct or map of the value name the same attribute (`@key`) twice?
+    pub fn repeats_attribute_key(&self) -> bool {
+        fn dup<'k>(keys: impl Iterator<Item = &'k str>) -> bool {
+            let mut seen: Vec<&str> = vec![];
+            for k in keys.filter(|k| k.starts_with('@')) {
+                if seen.contains(&k) {
+                    return true;
+                }
+                seen.push(k);
+            }
+            false
+        }
+        match self {
+            Dyn::Some(v) | Dyn::Newtype(_, v) | Dyn::NewtypeVariant(_, _, v) => v.repeats_attribute_key(),
+            Dyn::Seq(v) | Dyn::Tuple(v) | Dyn::TupleVariant(_, _, v) => v.iter().any(|x| x.repeats_attribute_key()),
+            Dyn::Map(v) => dup(v.iter().map(|(k, _)| k.as_str())) || v.iter().any(|(_, x)| x.repeats_attribute_key()),
+            Dyn::Struct(_, v) | Dyn::StructVariant(_, _, v) => dup(v.iter().map(|(k, _)| fkey(*k))) || v.iter().any(|(_, x)| x.repeats_attribute_key()),
+            _ => false,
+        }
+    }
     pub fn has_hostile_payload(&self) -> bool {
         let hostile = |s: &str| s.chars().any(|c| matches!(c, '<' | '&' | '\'' | '"' | '>')) || s.contains("]]>");
         match self {
